@@ -47,6 +47,13 @@ func buildScenarios(c *vkit.Ctx) []e2e.Scenario {
 
 type finding struct{ class, what string }
 
+func lastN(s []string, n int) []string {
+	if len(s) > n {
+		return s[len(s)-n:]
+	}
+	return s
+}
+
 func Judge(obs *e2e.Obs) (fs []finding, info map[string]int) {
 	info = map[string]int{}
 	add := func(class, what string) { fs = append(fs, finding{class, what}) }
@@ -61,12 +68,26 @@ func Judge(obs *e2e.Obs) (fs []finding, info map[string]int) {
 	first := map[string]bool{}
 	lastSeq := map[skey]int{}
 	lastStamp := map[skey]string{}
+	arrivals := map[skey][]string{} // every arrival of the stream (first or repeated), for the witness
+	agentLog := ""
+	for gi, g := range obs.Gens {
+		for i, l := range g.AgentLog {
+			if i < 4 {
+				if len(l) > 200 {
+					l = l[:200]
+				}
+				agentLog += fmt.Sprintf(" || gen%d: %s", gi, l)
+			}
+		}
+	}
 	for _, d := range obs.Up {
 		r, ok := sent[d.Stamp]
 		if !ok {
 			continue // C01 decides phantom records
 		}
 		k := d.Output + "/" + d.Stamp
+		sk0 := skey{d.Output, fmt.Sprintf("conn%d/%s/%d", r.Conn, r.App, r.Sev)}
+		arrivals[sk0] = append(arrivals[sk0], fmt.Sprintf("%s@gen%d/conn%d/%s/acked=%v", d.Stamp, d.Gen, d.UpConn, d.ChunkID, d.Acked))
 		if first[k] {
 			info["duplicate_arrivals"]++
 			continue
@@ -75,7 +96,7 @@ func Judge(obs *e2e.Obs) (fs []finding, info map[string]int) {
 		sk := skey{d.Output, fmt.Sprintf("conn%d/%s/%d", r.Conn, r.App, r.Sev)}
 		if r.Seq < lastSeq[sk] {
 			add("record-order", fmt.Sprintf("%s stream %s: record %s first arrived after record %s (chunk %s, upstream connection %d)",
-				d.Output, sk.stream, d.Stamp, lastStamp[sk], d.ChunkID, d.UpConn))
+				d.Output, sk.stream, d.Stamp, lastStamp[sk], d.ChunkID, d.UpConn)+"; arrivals of the stream so far: "+strings.Join(lastN(arrivals[sk], 14), " ")+agentLog)
 		} else {
 			lastSeq[sk] = r.Seq
 			lastStamp[sk] = d.Stamp
@@ -162,8 +183,12 @@ func childMain(c *vkit.Ctx) {
 		runtime.GOMAXPROCS(sc.Procs)
 	}
 	c.LogCase(sc.ID + ":" + sc.Family)
-	obs, err := e2e.Run(sc, c.WorkDir(), e2e.Hooks{})
+	obs, err, attempts, expired := e2e.RunStable(sc, c.WorkDir(), e2e.Hooks{}, func(o *e2e.Obs) bool { fs, _ := Judge(o); return len(fs) > 0 })
 	c.Eval(1)
+	if attempts > 1 {
+		c.Event("attempts_set_aside_after_safety_timeout_expiry", attempts-1)
+		c.Sample(map[string]any{"scenario": sc.ID, "family": sc.Family, "set_aside": expired})
+	}
 	if err != nil {
 		c.Inconclusive("scenario " + sc.ID + ": " + err.Error())
 		return
